@@ -210,6 +210,7 @@ def run_case(case):
         except Exception as exc:  # noqa: BLE001
             out["violations"].append({"kind": "conformed_tree_not_executable", "detail": f"{label}: {exc_str(exc)} conformed {short(conformed, 300)}"})
         out["sigs"].append(f"raw:{gen.op_signature(prog)}")
+        out["evaluations"] = 2  # the factory route and the raw/conform route
         out["sample"] = {"program": label, "factory_tree": short(rel, 160) if rel is not None else None, "raw_tree": short(raw, 160), "conformed_raw": short(conformed, 160), "slot_patterns": sorted(slots)}
         return out
     finally:
